@@ -9,13 +9,13 @@ RFACT = 'dv.sys_ragged:RaggedSys'
 
 def configs(tier):
     arr, rag = [], []
-    A = lambda dt, trail, n0, L: arr.append({'dtype': dt, 'trail': trail, 'start_len': n0, 'Lmax': L,
-                                             'oracles': ['readme'], 'features': ['meta', 'recreate', 'copy']})
+    A = lambda dt, trail, n0, L, feats=('meta', 'recreate', 'copy'): arr.append(
+        {'dtype': dt, 'trail': trail, 'start_len': n0, 'Lmax': L, 'oracles': ['readme'], 'features': list(feats)})
     R = lambda dt, atom, it, route, N, feats: rag.append({'dtype': dt, 'atom': atom, 'indextype': it, 'route': route,
                                                           'Nmax': N, 'oracles': ['readme'], 'features': feats})
     if tier == 'quick':
         A('<f8', [], 0, 1)
-        A('>i2', [2], 1, 2)
+        A('>i2', [2], 1, 2, ('meta1', 'recreate'))
         R('<f8', [], 'int64', 'create', 7, ['long'])
         R('>i4', [2], 'int32', 'as2', 7, ['long'])
         R('<f8', [2], 'int64', 'create', 2, ['meta'])
